@@ -22,6 +22,9 @@ type RedirectFlags struct {
 	EnableAll  bool
 }
 
+// errMalformed is returned for a packet whose size field is smaller than the header
+var errMalformed = errors.New("packet size smaller than header")
+
 // readMessage parses and defragments a packet from a Transport. It returns
 // at most the bytes that have been reported by the packet
 func readMessage(in transport.Transport) (pt int, n int, msg []byte, err error) {
@@ -42,6 +45,9 @@ func readMessage(in transport.Transport) (pt int, n int, msg []byte, err error) 
 
 		if !fragment {
 			pt, sz, msg, err = readHeader(pkt[:size])
+			if err == errMalformed {
+				return 0, 0, []byte{0, 0}, err
+			}
 			if err != nil {
 				fragment = true
 				index = copy(buf, pkt[:size])
@@ -87,6 +93,9 @@ func readHeader(data []byte) (packetType uint16, size uint32, packet []byte, err
 	binary.Read(r, binary.LittleEndian, &size)
 	if len(data) < int(size) {
 		return packetType, size, data[8:], errors.New("data incomplete, fragment received")
+	}
+	if size < 8 {
+		return packetType, size, nil, errMalformed
 	}
 	return packetType, size, data[8:size], nil
 }
